@@ -198,12 +198,17 @@ fn pareto(a: &[f64], b: &[f64]) -> Option<Ordering> {
 fn check_mo_pair(a: &[f64], b: &[f64]) -> Option<(String, String)> {
     let x = MultiObjective::try_from(a).ok()?;
     let y = MultiObjective::try_from(b.to_vec()).ok()?;
-    let r = catch(|| (x.partial_cmp(&y), y.partial_cmp(&x), x == y));
+    let r = catch(|| (x.partial_cmp(&y), y.partial_cmp(&x), x == y, (x < y, x <= y, x > y, x >= y, x != y)));
     let sig = |w: &str| format!("C09 multi pair len={}/{} {}", a.len(), b.len(), w);
     match r {
         Err(p) => Some((sig("panic"), format!("{:?} vs {:?}: {}", a, b, p))),
-        Ok((xy, yx, eq)) => {
+        Ok((xy, yx, eq, ops)) => {
             let exp = pareto(a, b);
+            // the comparison operators are the ones partial_cmp defines
+            let eops = (exp == Some(Ordering::Less), matches!(exp, Some(Ordering::Less | Ordering::Equal)), exp == Some(Ordering::Greater), matches!(exp, Some(Ordering::Greater | Ordering::Equal)), exp != Some(Ordering::Equal));
+            if xy == exp && ops != eops {
+                return Some((sig("operators"), format!("{:?} vs {:?}: (<, <=, >, >=, !=) = {:?}, Pareto dominance {:?} gives {:?}", a, b, ops, exp, eops)));
+            }
             if xy != exp {
                 return Some((sig("pareto"), format!("{:?}.partial_cmp({:?}) = {:?}, Pareto dominance says {:?}", a, b, xy, exp)));
             }
@@ -223,7 +228,7 @@ pub fn run(rep: &mut Report) {
     rep.alpha("SingleObjective::try_from on a grid of 38 special doubles (zeros, subnormals, extremes, infinities, 4 NaN encodings, ordinary values)");
     rep.alpha("==, <, <=, >, >=, partial_cmp, cmp, min, max on every pair; transitivity, sort/min/max/min_by_key on every triple");
     rep.alpha("+, -, neg on every pair; * and / by every finite grid double");
-    rep.alpha("MultiObjective over all vectors of length 0..3 over {-1,-0,+0,1,+inf}: try_from, partial_cmp, == on all pairs, transitivity on all triples");
+    rep.alpha("MultiObjective over all vectors of length 0..3 over {-1,-0,+0,1,+inf}: try_from, partial_cmp, ==, !=, <, <=, >, >= on all pairs, transitivity on all triples");
     rep.assume("doubles outside the grid behave like their class representative (the code does not branch on magnitudes)");
 
     // 1. construction
